@@ -123,6 +123,10 @@ def simple_def(k):
     if d is None:
         d = filtgen.Definition()
         d.conditions = [("Subject", ":is", "v%d" % k)]
+        if k % 5 == 3:
+            d.conditions = [("false",)]  # a filter whose one and only test is the constant
+        elif k % 5 == 4:
+            d.conditions = [("true",)]
         d.actions = [("fileinto", "F%d" % k)]
         d.matchtype = "anyof" if k % 2 else "allof"
         _defs[k] = d
